@@ -50,8 +50,15 @@ func c06Case(t *rapid.T, ev *evProp, si *SuiteInfo) {
 		violationOrKnown(t, ev, fmt.Sprintf("C06/%s/nondegenerate", si.Name), "e(B1,B2) is the identity of GT")
 	}
 	if gt.HasBase {
-		// GT.Base() is documented as the pairing of the generators where it exists
-		_ = gt.G.Point().Base()
+		// GT.Base() is the pairing of the generators where it exists - on every call, also after a
+		// value obtained from Base() has been updated in place (a generator handed out by reference
+		// from a cache would be corrupted for the rest of the process)
+		gb := gt.G.Point().Base()
+		eq("GT.Base()=e(B1,B2)", gb, eBB)
+		gb.Mul(ab, gb)
+		eq("ab*GT.Base() (in place)=e(aB1,bB2)", gb, s.Pair(g1.G.Point().Mul(a.S, g1.G.Point().Base()), g2.G.Point().Mul(b.S, g2.G.Point().Base())))
+		gb.Null()
+		eq("GT.Base() after Null() on an earlier copy", gt.G.Point().Base(), eBB)
 	}
 	// ValidatePairing(p1,p2,i1,i2) == (Pair(p1,p2) == Pair(i1,i2))
 	kind := rapid.SampledFrom([]string{"(aP,Q,P,aQ)", "(P,Q,P,Q)", "(O,Q,P,O)", "(P,Q,P2,Q2)", "(aP,Q,P,bQ)", "(O,Q,P,Q)", "(P,Q,O,Q)", "(P,O,P,Q)", "(P,Q,P,O)", "(P,Q,-P,-Q)", "(P,Q,-P,Q)"}).Draw(t, "vp")
